@@ -24,7 +24,7 @@ ASSUMPTIONS = ["reference model: a Python dict from int to value",
                "a single absent key may be refused or answered with an empty result (the statement only demands refusal for vector lookups), never with a value",
                "per-key vector assignment is only issued with distinct keys (numpy leaves the winner of duplicate fancy-index writes unspecified)"]
 REQUIRED_FEATURES = ["all_keys_collide", "negative_key", "large_key", "unsigned_keys", "scalar_valued", "absent_key_colliding",
-                     "absent_key_empty_bucket", "vector_with_absent", "lazy_form_materialised", "bfs_depth2"]
+                     "absent_key_empty_bucket", "vector_with_absent", "lazy_form_materialised", "bfs_depth2", "empty_query"]
 BOUNDS = {"quick": "grid: every non-empty key subset of size <= 3 of {0,1,2,3,7,-1,-3,2**62} (int64), moduli {default,1,2,3,5,64}, 4 value forms; "
                    "the dtype list {int32,int8,uint8,uint64,python list} on 14 key sets; universe of 10 probe keys, all 100 pair queries. "
                    "bfs: 20 configurations, all histories of depth <= 2 over ~20 state-changing operations, full observation of every distinct state",
@@ -183,6 +183,22 @@ def observe_table(acc, t_factory, d, keys, mod, kdt, probe_keys, pairs, tag="", 
             acc.trans()
             if c != tuple(k in d for k in q):
                 acc.fail("contains-wrong", (q, [k in d for k in q]), c, classifier=cl("contains", q, form), note=form)
+    # the empty vector of keys: nothing is looked up, nothing is assigned
+    for form, qq in (("list", lambda: []), ("array", lambda: np.array([], dtype=kdt or np.int64))):
+        acc.feature("empty_query")
+        o = attempt(lambda: _vals(t_factory()[qq()]))
+        acc.trans()
+        if o != ():
+            acc.fail("vector-lookup-wrong", ([], []), o, classifier=cl("getv-empty", [], form), note=form)
+
+        def assign_nothing():
+            t = t_factory()
+            t[qq()] = 5
+            return {int(k): pyval(v) for k, v in t.to_dict().items()}
+        o = attempt(assign_nothing)
+        acc.trans()
+        if o != {int(k): pyval(v) for k, v in d.items()}:
+            acc.fail("assignment-to-no-keys-changed-the-table", d, o, classifier=cl("setv-empty", [], form), note=form)
     it = attempt(lambda: sorted((int(k), pyval(v)) for k, v in t_factory().items()))
     acc.trans()
     if it != sorted((int(k), pyval(v)) for k, v in d.items()):
